@@ -11,6 +11,9 @@
  * presentation ends exactly at column `limit` (only if that needs >= 2 blanks), D = on the line of the data name (`_x <pres>`),
  * T = text field (written plain; `rb proto` when the fold/prefix protocol would be needed, i.e. contains_text_delim or
  * has_reserved_start).  `rb none` when the string cannot be encoded as UTF-8 (unpaired surrogate) or with the `norb` flag.
+ * W = (text-field recommendations only) the value is stored as a quoted character value in a managed CIF, written by the real
+ * cif_write — which applies the line-folding / prefix protocol where the analysis asks for it — and the bytes written are parsed
+ * back:  W:<rc of cif_write>:<rc of cif_parse>:<error callbacks>:<first error code>:<items>:<kind>:<quoted>:<hex text>
  */
 #include "common.h"
 
@@ -87,6 +90,49 @@ static void probe(char label, const char *lead, size_t pad, const struct cif_str
     free(doc);
 }
 
+
+/* text-field recommendations, through the real writer (fold / prefix protocol included) and back through the real parser */
+static void probe_written(const UChar *s) {
+    static cif_handler_tp h = { 0, 0, 0, 0, 0, 0, 0, 0, 0, 0, h_item };
+    static const UChar code[] = { 'a', 0 }, name[] = { '_', 'x', 0 };
+    cif_tp *cif = NULL;
+    cif_block_tp *b = NULL;
+    cif_value_tp *v = NULL;
+    UChar *copy = cif_u_strdup(s);
+    struct cif_parse_opts_s *o = NULL;
+    char *doc = NULL;
+    size_t doclen = 0;
+    FILE *f;
+    int wrc = -1, rc = -1;
+
+    if (!copy || cif_create(&cif) != CIF_OK || cif_create_block(cif, code, &b) != CIF_OK || cif_value_create(CIF_UNK_KIND, &v) != CIF_OK) {
+        OUT(" W:setup-failed"); free(copy); goto done;
+    }
+    if (cif_value_init_char(v, copy) != CIF_OK) { OUT(" W:setup-failed"); free(copy); goto done; }    /* takes ownership of copy */
+    if (cif_container_set_value(b, name, v) != CIF_OK) { OUT(" W:setup-failed"); goto done; }
+    f = open_memstream(&doc, &doclen);
+    wrc = cif_write(f, NULL, cif);
+    fclose(f);
+    n_err = 0; first_err = 0; n_items = 0; got_kind = -1; got_quoted = -1;
+    free(got_text); got_text = NULL;
+    if (wrc == CIF_OK && cif_parse_options_create(&o) == CIF_OK) {
+        f = fmemopen(doc, doclen ? doclen : 1, "rb");
+        o->handler = &h;
+        o->error_callback = errcb;
+        rc = cif_parse(f, o, NULL);
+        fclose(f);
+        free(o);
+    }
+    OUT(" W:%d:%d:%d:%d:%d:%d:%d:", wrc, rc, n_err, first_err, n_items, got_kind, got_quoted);
+    outhex(got_text);
+    free(got_text); got_text = NULL;
+done:
+    free(doc);
+    if (v) cif_value_free(v);
+    if (b) cif_container_free(b);
+    if (cif) (void) cif_destroy(cif);
+}
+
 static void handle(int argc, char **argv) {
     UChar *s = NULL;
     size_t n = 0, i;
@@ -113,6 +159,7 @@ static void handle(int argc, char **argv) {
     if (a.delim_length == 2) {
         if (a.contains_text_delim || a.has_reserved_start) OUT(" proto");
         else probe('T', "_x", 0, &a, s, n);
+        probe_written(s);
     } else {
         long firstphys = (long) a.delim_length + a.length_first + (a.num_lines == 1 ? (long) a.delim_length : 0);
         probe('A', "_x\n", 0, &a, s, n);
